@@ -8,4 +8,6 @@ HistJ == [i \in DOMAIN hist |-> [w |-> hist[i][1], call |-> hist[i][2], res |-> 
 Export == AllFinal => PrintT(ToJson([kind |-> Kind, writers |-> Cardinality(Writers), fault |-> FaultJ, dry |-> dry, dest0 |-> dest0,
                                        dir0 |-> (dest0 = "old" \/ (hist # <<>> /\ hist[1][3] = "T")), hist |-> HistJ,
                                        final |-> [w \in Writers |-> pc[w]], dest |-> dest]))
+\* no behaviour gets stuck before every writer is final (a stuck schedule would silently drop out of the export)
+NoStuck == AllFinal \/ ENABLED Next
 ====
